@@ -83,16 +83,34 @@ def glue (ndr ndc : Nat) (subs : List Sub) : COO :=
     `bound_displacement_divergence`): no scaling (see the IMPLEMENTATION NOTE in biot.py) -/
 def glueNoScale (ndr ndc : Nat) (subs : List Sub) : COO := accumulate ndr ndc subs
 
-/-- Step 3 exactly as coded in `Mpfa.discretize` today: a subproblem whose `faces_in_subgrid` has as
-    many elements as the grid has faces OVERWRITES the accumulator with its unmapped local matrix. -/
-def accumulateAsCoded (nf ndr ndc : Nat) : COO → List Sub → COO
-  | acc, [] => acc
-  | acc, s :: subs =>
-    accumulateAsCoded nf ndr ndc
-      (if s.own.length = nf then zeroed ndr s else acc ++ toGlobal ndr ndc s) subs
+/-- Step 3 exactly as coded in `Mpfa.discretize` NOW (after the repair `a590fa5c2`): a subproblem whose
+    `faces_in_subgrid` has as many elements as the grid has faces skips the mapping; its unmapped local matrix is
+    ASSIGNED if it is the first subproblem (`len(faces_in_subgrid_accum) == 1`) and ADDED otherwise. -/
+def accumulateAsCoded (nf ndr ndc : Nat) : Bool → COO → List Sub → COO
+  | _, acc, [] => acc
+  | first, acc, s :: subs =>
+    accumulateAsCoded nf ndr ndc false
+      (if s.own.length = nf then (if first then zeroed ndr s else acc ++ zeroed ndr s)
+       else acc ++ toGlobal ndr ndc s) subs
 
 def glueAsCoded (nf ndr ndc : Nat) (subs : List Sub) : COO :=
-  scale ndr (count subs) (accumulateAsCoded nf ndr ndc [] subs)
+  scale ndr (count subs) (accumulateAsCoded nf ndr ndc true [] subs)
+
+/-- Step 3 as it was coded BEFORE the repair (finding `mpfa:split:late-full-cover-subproblem`, fixed):
+    the full-cover subproblem always overwrote the accumulator. Kept for the documented counterexample. -/
+def accumulateBeforeFix (nf ndr ndc : Nat) : COO → List Sub → COO
+  | acc, [] => acc
+  | acc, s :: subs =>
+    accumulateBeforeFix nf ndr ndc
+      (if s.own.length = nf then zeroed ndr s else acc ++ toGlobal ndr ndc s) subs
+
+def glueBeforeFix (nf ndr ndc : Nat) (subs : List Sub) : COO :=
+  scale ndr (count subs) (accumulateBeforeFix nf ndr ndc [] subs)
+
+/-- the local→global maps of a subproblem are the identity (`np.arange`) -/
+def idMaps (ndr ndc : Nat) (s : Sub) : Prop :=
+  (∃ nR, s.l2gR = List.range nR) ∧ (∃ nC, s.l2gC = List.range nC) ∧
+  ∀ t ∈ s.loc, t.1 < s.l2gR.length * ndr ∧ t.2.1 < s.l2gC.length * ndc
 
 /-- step 5: rows of the active entities are taken from `fresh`, all other rows from `old`.
     Models both `M[active_rows] = fresh[active_rows]` (parameter `update_discretization`) and
@@ -109,5 +127,77 @@ def partialFresh (ndr ndc : Nat) (s : Sub) : COO := toGlobal ndr ndc s
 /-- all triplets of a local matrix address existing local rows / columns -/
 def inRange (ndr ndc : Nat) (s : Sub) : Prop :=
   ∀ t ∈ s.loc, t.1 < s.l2gR.length * ndr ∧ t.2.1 < s.l2gC.length * ndc
+
+/-! ### index sets of the stencils (which cells / faces a subproblem or a partial update works on)
+
+`Conn` is a connectivity table entity ↦ its nodes: `cn` = `sd.cell_nodes()` (per cell), `fn` = `sd.face_nodes`
+(per face). The interaction region of a node `v` is the set of cells `c` with `v ∈ cn[c]`; the MPxA rows of a
+face depend on the interaction regions of the nodes of that face only. -/
+
+abbrev Conn := List (List Nat)
+
+def hasNodeIn (row : List Nat) (N : Nat → Bool) : Bool := row.any N
+def allNodesIn (row : List Nat) (N : Nat → Bool) : Bool := row.all N
+
+/-- nodes of a list of entities (`cn * cells_boolean > 0`) -/
+def nodesOf (conn : Conn) (ents : List Nat) : Nat → Bool :=
+  fun v => ents.any (fun e => (conn.getD e []).contains v)
+
+/-- nodes of the entities selected by a mask (`face_nodes * active_faces > 0`) -/
+def nodesOfMask (conn : Conn) (mask : Nat → Bool) : Nat → Bool :=
+  fun v => (List.range conn.length).any (fun e => mask e && (conn.getD e []).contains v)
+
+def maskToList (n : Nat) (mask : Nat → Bool) : List Nat := (List.range n).filter mask
+
+/-- `_fvutils.subproblems`, cells of the subgrid with overlap: all cells sharing a node with the partition `P` -/
+def subCells (cn : Conn) (P : List Nat) : List Nat :=
+  maskToList cn.length (fun c => hasNodeIn (cn.getD c []) (nodesOf cn P))
+
+/-- `_fvutils.subproblems`, `faces_in_subgrid`: faces all of whose nodes are nodes of the partition -/
+def subOwnFaces (cn fn : Conn) (P : List Nat) : List Nat :=
+  maskToList fn.length (fun f => allNodesIn (fn.getD f []) (nodesOf cn P))
+
+/-- state of `cell_ind_for_partial_update`: mask of the cells collected so far, and the (shared!)
+    boolean array `active_faces` -/
+structure St where
+  cp : Nat → Bool
+  fp : Nat → Bool
+
+/-- branch `if cells is not None` -/
+def stepCells (cn fn : Conn) (C : List Nat) (st : St) : St :=
+  let V0 := nodesOf cn C
+  let fp1 : Nat → Bool := fun f => st.fp f || hasNodeIn (fn.getD f []) V0
+  let V1 : Nat → Bool := fun v => V0 v || nodesOfMask fn fp1 v
+  { cp := fun c => st.cp c || hasNodeIn (cn.getD c []) V1, fp := fp1 }
+
+/-- branch `if faces is not None`; note that `active_nodes` is taken from ALL faces active so far -/
+def stepFaces (cn fn : Conn) (S : List Nat) (st : St) : St :=
+  let Vp := nodesOf fn S
+  let fp2 : Nat → Bool := fun f => st.fp f || hasNodeIn (fn.getD f []) Vp
+  let An := nodesOfMask fn fp2
+  let prim : Nat → Bool := fun c => hasNodeIn (cn.getD c []) An
+  let An2 : Nat → Bool := fun v => An v || nodesOfMask cn prim v
+  { cp := fun c => st.cp c || hasNodeIn (cn.getD c []) An2, fp := fp2 }
+
+/-- branch `if nodes is not None` -/
+def stepNodes (cn fn : Conn) (Nn : List Nat) (st : St) : St :=
+  let Vn : Nat → Bool := fun v => Nn.contains v
+  { cp := fun c => st.cp c || hasNodeIn (cn.getD c []) Vn,
+    fp := fun f => st.fp f || allNodesIn (fn.getD f []) Vn }
+
+def optStep (f : List Nat → St → St) : Option (List Nat) → St → St
+  | none, st => st
+  | some l, st => f l st
+
+/-- `cell_ind_for_partial_update(sd, cells, faces, nodes)` as coded (the cell list without the repetitions
+    that `np.hstack` leaves in it) -/
+def cellIndState (cn fn : Conn) (cells faces nodes : Option (List Nat)) : St :=
+  optStep (stepNodes cn fn) nodes
+    (optStep (stepFaces cn fn) faces
+      (optStep (stepCells cn fn) cells { cp := fun _ => false, fp := fun _ => false }))
+
+def cellInd (cn fn : Conn) (cells faces nodes : Option (List Nat)) : List Nat × List Nat :=
+  let st := cellIndState cn fn cells faces nodes
+  (maskToList cn.length st.cp, maskToList fn.length st.fp)
 
 end PorepyVerif.C14
